@@ -165,6 +165,8 @@ def classes():
             t = sim.simulator_time
             k = self.nobs
             self.nobs += 1
+            if self.nobs > 60:
+                return            # watchdog against a runaway run loop
             try:
                 if self.via == "direct":
                     if self.kind == "counter":
